@@ -65,3 +65,33 @@ Theorem c06_paths_project_onto_tables : forall p hs, c06_hyps hs = true ->
       (forall n, In n (removelast path) -> exists h, In h hs /\ owner_in n (h_read h) = true).
 Proof. exact c06_main. Qed.
 Print Assumptions c06_paths_project_onto_tables.
+
+(** ... in the property's own terms (Tree/ScriptWellFormedExt.v): under [c06_hyps] every reported path has at least two
+    nodes, every column but the first is owned by a target or intermediate table of the script and every column but the
+    last by a SOURCE or intermediate table of the script (a dataset read by some statement of a DROP/RENAME-free script is
+    a source or an intermediate table). *)
+From SV Require Import Tree.Observe Tree.Render Tree.LemmaA Tree.LemmaAProofs Tree.LemmaB Tree.LemmaBProofs Tree.ScriptExact Tree.ScriptWellFormed Tree.ScriptExactExt Tree.ScriptWellFormedExt.
+
+Theorem c06_paths_between_source_and_target_tables : forall p hs, c06_hyps hs = true ->
+  exists g, build p hs = BOk g /\
+    forall b path, In path (column_lineage g b false) ->
+      2 <= List.length path /\
+      (forall n, In n (tl path) -> owner_in n (target_tables g ++ intermediate_tables g) = true) /\
+      (forall n, In n (removelast path) -> owner_in n (source_tables g ++ intermediate_tables g) = true).
+Proof. exact M2.c06_sources. Qed.
+Print Assumptions c06_paths_between_source_and_target_tables.
+
+(** * End to end on the tree model: for every script of statements of the core fragment (INSERT / CTAS / VIEW over one SELECT
+    from base tables with resolved references, plain SELECTs, statements that move no data), any trivia, no metadata, the
+    hypotheses above HOLD for the holders the extractors produce (tags, owners_dir, closedness are proved of the extractor's
+    operations), so the script graph exists and every reported path is well formed and projects onto the script's own
+    source / intermediate / target tables. *)
+Theorem c06_script_paths_well_formed_on_core : forall noise e ss,
+  noise_ok noise = true -> env_ok e = true -> Forall core_stmt_ext ss ->
+  exists g, script_graph e false [] (map (r_stmt noise) ss) = Ok g /\
+    forall b path, In path (column_lineage g b false) ->
+      2 <= List.length path /\
+      (forall n, In n (tl path) -> CompDefs.owner_in n (target_tables g ++ intermediate_tables g) = true) /\
+      (forall n, In n (removelast path) -> CompDefs.owner_in n (source_tables g ++ intermediate_tables g) = true).
+Proof. exact script_paths_well_formed_on_core_ext. Qed.
+Print Assumptions c06_script_paths_well_formed_on_core.
